@@ -223,6 +223,13 @@ class Filter(object):
                 warnings.warn("Dataset '{}' does ".format(rtdc_ds.identifier)
                               + "not contain the feature '{}'! ".format(feat)
                               + "A box filter has been ignored.")
+        # Box filters without any range in the current settings must not
+        # filter anything (they might be left over from an earlier update
+        # that was interrupted by an exception).
+        for feat in self._box_filters:
+            if (feat + " min" not in cfg_cur
+                    and feat + " max" not in cfg_cur):
+                self._box_filters[feat][:] = True
         # store box filters
         arr_box = self._get_rw_array("box")
         arr_box[:] = True
